@@ -30,6 +30,20 @@ import qubovert as qv
 __all__ = 'PUBO',
 
 
+# JTIOSUE_QUBOVERT_VERIF: optional reduction certificates for external
+# validation. Off unless the environment has JTIOSUE_QUBOVERT_VERIF=1; then
+# every call of PUBO._reduce_degree appends a record to _VERIF_CERTS.
+import os  # noqa: E402
+_VERIF_CERTS = []
+
+
+def _verif_cert(model, deg):
+    if os.environ.get("JTIOSUE_QUBOVERT_VERIF") != "1":
+        return None
+    return dict(n=model.num_binary_variables, deg=deg,
+                mapping=dict(model._mapping), terms=[])
+
+
 class PUBO(BO, PUBOMatrix):
     """PUBO.
 
@@ -245,7 +259,9 @@ class PUBO(BO, PUBOMatrix):
 
         # do the reductions
         reductions = {}
+        _qv = _verif_cert(self, deg)
         for key, v in mapped_self.items():
+            _qv_term = dict(key0=key, v=v, steps=[])
             # find a reduction if len(key) > deg
             while len(key) > deg:
                 # find a variable pair in k that has already been reduced.
@@ -291,6 +307,9 @@ class PUBO(BO, PUBOMatrix):
                 D += qv.PCBO().add_constraint_eq_AND(
                     z, x, y, lam=func_lam(v)
                 )
+                if _qv is not None:
+                    _qv_term["steps"].append(
+                        (x, y, z, not previously_used, func_lam(v)))
 
                 # key is sorted, but it is not necessarily the case that
                 # z > all of the other elements in key. So let's efficiently
@@ -309,6 +328,11 @@ class PUBO(BO, PUBOMatrix):
                     key += (z,)
 
             D[key] += v
+            if _qv is not None:
+                _qv_term["key"] = key
+                _qv["terms"].append(_qv_term)
+        if _qv is not None:
+            _VERIF_CERTS.append(_qv)
 
     def to_pubo(self, deg=None, lam=None, pairs=None):
         """to_pubo.
